@@ -285,15 +285,15 @@ def version_cases(ck, rnd, n):
 def tag_cases(ck, rnd, n):
     keys = ["Name", "env", "owner", "name", "Env"]
     for _ in range(n):
-        tags = [{"Key": rnd.choice(keys), "Value": rnd.choice(["v1", "v2", "", "x:y", "prod"])} for _ in range(rnd.choice([0, 1, 2, 3, 5]))]
-        k = rnd.choice(keys)
+        tags = [{"Key": rnd.choice(keys), "Value": rnd.choice(["v1", "v2", "", "x:y", "prod"])} for _ in range(rnd.choice([0, 1, 2, 3, 5, 8, 16, 17, 33, 70]))]
+        k = rnd.choice(keys + ["absent"])
         exp = None
         for t in tags:
             if t["Key"] == k:
                 exp = t["Value"]
                 break
         cnt = sum(1 for t in tags if t["Key"] == k)
-        kind = "missing" if cnt == 0 else ("repeated" if cnt > 1 else "single")
+        kind = ("missing" if cnt == 0 else ("repeated" if cnt > 1 else "single")) + ("-long-list" if len(tags) > 10 else "")
         ck.both("key", kind, [tags, k], exp, "a0.key(a1)", lambda: (lambda v: None if v is None else str(v))(ck.lib.key(ck.cel(tags), ck.cel(k))))
     for _ in range(n):
         y, mo, d = rnd.randint(1990, 2090), rnd.randint(1, 12), rnd.randint(1, 28)
@@ -362,13 +362,31 @@ def context_histories(ck, rnd, n):
         probe()
         raise RuntimeError("host runtime error")
 
+    class Abort(BaseException):
+        pass
+
+    class Unprintable(Exception):
+        def __str__(self):
+            raise RuntimeError("no text")
+
+    def boom_noargs():
+        # exceptions that carry no arguments, non-text arguments, or cannot be rendered
+        probe()
+        raise rnd.choice([KeyError(), NotImplementedError(), LookupError(), AssertionError(), StopIteration(), RuntimeError(b"\xff", 3), Unprintable(), Unprintable(None)])
+
+    def boom_base():
+        probe()
+        raise Abort()
+
     functions = dict(lib.FUNCTIONS)
-    functions.update({"probe": probe, "boom_value": boom_value, "boom_runtime": boom_runtime})
+    functions.update({"probe": probe, "boom_value": boom_value, "boom_runtime": boom_runtime, "boom_noargs": boom_noargs, "boom_base": boom_base})
     sources = {
         "success": "probe() + ':' + normalize(' A ')",
         "cel-error": "probe() + string(1 / x)",
         "host-value-error": "boom_value()",
         "host-runtime-error": "boom_runtime()",
+        "host-error-without-arguments": "boom_noargs()",
+        "host-base-exception": "boom_base()",
         "helper-uses-nothing": "intersect([1], [1]) && probe() != ''",
     }
     for h in range(n):
@@ -393,6 +411,8 @@ def context_histories(ck, rnd, n):
                 outcome = "RuntimeError"
             except Exception as ex:
                 outcome = type(ex).__name__
+            except Abort:
+                outcome = "BaseException"
             acc.evaluations += 1
             history.append((kind, outcome))
             after = lib.C7N
